@@ -44,7 +44,12 @@ func (p *NegotiationParams) Validate() error {
 
 	switch p.Compress {
 	case "":
-		// ok
+		if p.CompressLevel != nil && (*p.CompressLevel < 0 || *p.CompressLevel > 9) {
+			return errors.Errorf("unknown compress level %d", *p.CompressLevel)
+		}
+		if p.CompressWindowBits != nil && (*p.CompressWindowBits < 0 || *p.CompressWindowBits > 32) {
+			return errors.Errorf("invalid compress window bits %d", *p.CompressWindowBits)
+		}
 	case compress.TypePerMessage, compress.TypeContextTakeOver:
 		if p.CompressLevel != nil {
 			if *p.CompressLevel < 0 || *p.CompressLevel > 9 {
